@@ -14,47 +14,47 @@ CORE_TRUSTED = [
 ]
 
 SPEC = {
-    'C01': dict(manual=[(['tree', 'chan', 'catchall', 'dynh', 'structural', 'prio'], 220), (['chan', 'catchall', 'dynh'], 80)],
-                run=[], patterns=60, cache_patterns=150, kinds={'D', 'I'}, opts=dict(tree=True),
+    'C01': dict(manual=[(['tree', 'chan', 'catchall', 'dynh', 'structural', 'prio'], 660), (['chan', 'catchall', 'dynh'], 240)],
+                run=[], patterns=150, cache_patterns=300, kinds={'D', 'I'}, opts=dict(tree=True),
                 nontrivial=lambda w: len(w.side['expect']) >= 3 and any(op[0] == 'do' and op[2][0] in ('reg', 'unreg', 'addH', 'rmH') for op in w.ops),
                 rule='random forests (<=4 components, channels *, n1, n2, instances; named / catch-all / global handlers; '
                      'dynamic add/removeHandler; register/unregister incl. from handlers) x histories of fires and ticks; '
                      'non-trivial = >=3 dispatches and a structural change'),
-    'C02': dict(manual=[(['prio', 'stop', 'flushact', 'values'], 250), (['prio', 'stop', 'gen', 'values', 'flags'], 100)], run=[],
+    'C02': dict(manual=[(['prio', 'stop', 'flushact', 'values'], 750), (['prio', 'stop', 'gen', 'values', 'flags'], 300)], run=[],
                 kinds={'B', 'D', 'I', 'O'}, opts={},
                 nontrivial=lambda w: len([e for e in w.log if e[0] == 'D']) >= 4,
                 rule='random programs of fire(priority=p) from outside and from handlers (nesting <=5, priorities from '
                      '{-2,-1,-.5,0,.5,1,2}), handler priorities from the same grid, stop() at random handlers, flush() from '
                      'handlers; non-trivial = >=4 dispatches'),
-    'C04': dict(manual=[(['prio', 'values', 'gen', 'flags', 'stop'], 300), (['values', 'gen', 'flags', 'chan'], 100)], run=[],
+    'C04': dict(manual=[(['prio', 'values', 'gen', 'flags', 'stop'], 900), (['values', 'gen', 'flags', 'chan'], 300)], run=[],
                 kinds={'F', 'D', 'I', 'P'}, opts=dict(values=True),
                 nontrivial=lambda w: any(e.startswith('P') for e in w.log) or any(':3' in e or '906' in e for e in w.log),
                 rule='handlers drawn from {return v, return None, raise, generator yielding k values, generator raising at step j} '
                      'x success/failure/notify flags x success_channels x nested fires; non-trivial = a generator step or a raise'),
-    'C05': dict(manual=[(['values', 'gen', 'flags', 'cancel', 'stop', 'exec'], 250), (['values', 'gen', 'flags', 'cancel', 'prio'], 100)],
+    'C05': dict(manual=[(['values', 'gen', 'flags', 'cancel', 'stop', 'exec'], 750), (['values', 'gen', 'flags', 'cancel', 'prio'], 300)],
                 run=[], kinds={'F', 'D'}, opts={},
                 nontrivial=lambda w: any(':4' in e for e in w.log),
                 rule='event trees (fan-out <=3, depth <=5, several roots with complete=True, nested requesters) with descendants '
                      'cancelled / stopped / raising / fired from generator steps; both with and without an executing thread; '
                      'non-trivial = a complete event was fired'),
-    'C06': dict(manual=[(['values', 'gen', 'call', 'flags', 'chan'], 200), (['values', 'gen', 'call', 'prio', 'stop'], 80)],
-                run=[(['values', 'gen', 'call', 'timeout', 'flags'], 70)],
+    'C06': dict(manual=[(['values', 'gen', 'call', 'flags', 'chan'], 600), (['values', 'gen', 'call', 'prio', 'stop'], 240)],
+                run=[(['values', 'gen', 'call', 'timeout', 'flags'], 210)],
                 kinds={'F', 'D', 'I', 'P', 'R', 'T'}, opts=dict(values=True, residue=True), extra=('C04',),
                 nontrivial=lambda w: any(e[0] in 'RT' for e in w.log),
                 rule='acyclic programs of handlers that return / yield / call() / wait() (by object and by name, sequential and '
                      'nested), concurrent roots, raising callees, timeouts {0,1,2,5} under a real run() loop on a virtual clock; '
                      'non-trivial = a caller was resumed or timed out'),
-    'C07': dict(manual=[(['tree', 'chan', 'structural', 'values'], 250), (['tree', 'structural', 'gen', 'dynh'], 80)], run=[],
-                patterns=40, kinds={'F', 'D', 'I'}, opts=dict(tree=True),
+    'C07': dict(manual=[(['tree', 'chan', 'structural', 'values'], 750), (['tree', 'structural', 'gen', 'dynh'], 240)], run=[],
+                patterns=120, kinds={'F', 'D', 'I'}, opts=dict(tree=True),
                 nontrivial=lambda w: len(w.side['moves']) >= 2,
                 rule='histories over a pool of <=4 components of register (admissible only) / unregister / fire / tick of any root, '
                      'incl. nested unregistration, re-registration, unregister from handlers; non-trivial = >=2 attach/detach transitions'),
-    'C08': dict(manual=[], run=[(['prio', 'values'], 120), (['prio', 'values', 'gen', 'flags'], 60)],
+    'C08': dict(manual=[], run=[(['prio', 'values'], 360), (['prio', 'values', 'gen', 'flags'], 180)],
                 kinds={'F', 'D', 'I', 'B'}, opts={},
                 nontrivial=lambda w: any(op[0] == 'run' for op in w.ops),
                 rule='run() of programs with stop()/SystemExit/KeyboardInterrupt placed in started / mid-chain / generator step / '
                      'stopped handler, exit codes {None,0,3}, 1-2 run cycles, stop() on an idle manager; virtual clock'),
-    'C09': dict(manual=[], run=[(['prio', 'values', 'timers', 'gen'], 150)],
+    'C09': dict(manual=[], run=[(['prio', 'values', 'timers', 'gen'], 450)],
                 kinds={'F', 'D', 'W', 'H'}, opts={},
                 nontrivial=lambda w: len(w.side['tfires']) >= 2,
                 rule='1-5 timers (intervals {0,1,8,16,32,64}/64 s, persistent or not, reset / unregistered from handlers) with '
